@@ -70,8 +70,12 @@ def run_panel(case, want_targets=None):
             V = random_value_arrays(r, mj)
         else:
             V = [I.np.asarray(v) for v in fns.solve(params_impl(P))]
-        df = fns.simulate(params_impl(P), initial_states=init_impl(mj, init, int_cont=bool(case.get("int_init"))), vf_arr_list=[I.jnp.asarray(v) for v in V],
+        init_obj = init_impl(mj, init, int_cont=bool(case.get("int_init")))
+        info["init_keys"] = list(init_obj)
+        info["init_snap"] = {k: I.np.asarray(v).copy() for k, v in init_obj.items()}
+        df = fns.simulate(params_impl(P), initial_states=init_obj, vf_arr_list=[I.jnp.asarray(v) for v in V],
                           seed=seed, **({"additional_targets": want_targets} if want_targets else {}))
+        info["init_obj"] = init_obj      # the very dict object that was passed (C03: a caller who keeps and reuses it)
     except Exception as e:  # noqa: BLE001
         info["raise"] = f"{impl_site(e)}: {str(e)[:300]}"
         info["raise_key"] = f"raise:{impl_site(e)}"
